@@ -146,3 +146,14 @@ func (b *bulkStream) SendAndClose(r *gripql.BulkEditResult) error {
 	b.Result = r
 	return nil
 }
+
+// submitUnary calls the Submit handler the way the gRPC server does: the
+// context of a unary call is cancelled as soon as its handler has returned
+// (whatever the handler started in the background must not depend on it).
+func (s *simServer) submitUnary(q *gripql.GraphQuery) (*gripql.QueryJob, error) {
+	ctx, cancel := context.WithCancel(context.Background())
+	job, err := s.Srv.Submit(ctx, q)
+	hyield("h:unary-return")
+	cancel()
+	return job, err
+}
